@@ -131,3 +131,44 @@ def every_iteration(fn, L, node):
     if not plist or pos is None:
         return None
     return all(pos[0] in p[1:] for p in plist)
+
+
+def return_cases(fn, ctx, limit=512):
+    """The function as a case table: one entry per (acyclic entry->exit path, alternative of a conditional expression
+    in the returned value), each {facts, key, ret, path}: `facts` the branch facts of the path (plus the condition of the
+    chosen ?: alternative), `key` the returned expression with re-assigned locals replaced by their value along THAT
+    path.  Infeasible entries are dropped.  Returns None when the function has a loop or too many paths (the caller
+    answers 'undecided'); void paths are skipped.
+    This is what lets a rule be indifferent to `cond ? a : b` vs `if (cond) return a; return b;` vs an accumulator that is
+    conditionally updated before one final return."""
+    from .symenv import env_along, value_key
+    if any(n["k"] in ("for", "while", "do", "forrange") for _, n in fn.walk(fn.body)):
+        return None
+    plist = acyclic_paths(fn.cfg, fn.cfg.entry, {fn.cfg.exit}, limit=limit)
+    if not plist or len(plist) > limit:
+        return None
+    out = []
+    for pth in plist:
+        rets = [j for j in nodes_on_path(fn, pth) if fn.nodes[j]["k"] == "return"]
+        if len(rets) != 1 or fn.nodes[rets[0]].get("sub") is None:
+            continue
+        facts = path_facts(fn, ctx, pth)
+        if not feasible(facts):
+            continue
+        envs = env_along(fn, ctx, pth)
+        rk = value_key(fn, ctx, envs, fn.nodes[rets[0]]["sub"], at_node=rets[0])
+        stack = [(set(facts), rk)]
+        while stack:
+            fs, k = stack.pop()
+            kk = k
+            while isinstance(kk, tuple) and ((kk[0] == "cast" and len(kk) == 3) or (kk[0] == "ctor" and len(kk) == 3)):
+                kk = kk[2]
+            if isinstance(kk, tuple) and kk[0] == "cond" and len(kk) == 4:
+                for truth, alt in ((True, kk[2]), (False, kk[3])):
+                    add = key_facts(kk[1], truth)
+                    f2 = set(fs) | set(add)
+                    if feasible(f2):
+                        stack.append((f2, alt))
+                continue
+            out.append({"facts": fs, "key": k, "ret": rets[0], "path": pth})
+    return out
